@@ -3,14 +3,21 @@
 // for R without percent-encoded dot segments and absolute B; plus the invariants on
 // normalize(R) alone (scheme / authority presence, relative stays relative and
 // non-empty, absolute stays absolute).
-#include "gen.hpp"
-#include "parse_common.hpp"
+#include "hist.hpp"
 #include "pathenum.hpp"
 
 using namespace vf;
 
 static Fields gen(Tape &t) {
   Fields f;
+  // one case in six: R is an object a short history of library calls left behind (resolved, created, normalised with a
+  // partial mask, owned, read back) and is normalised as it stands; B is another such object, known by its text
+  if (t.below(6) == 5) {
+    int hi = t.weighted({4, 3, 2, 1}), hj = t.weighted({4, 3, 2, 1}), owned = t.chance(3, 4) ? 0 : 1;
+    ops_to_fields(f, g_history(t, SEG_NOPCTDOT, false, 5));
+    f.seti("hi", hi); f.seti("hj", hj); f.seti("owned", owned);
+    return f;
+  }
   LongMode lm(t, true);
   if (lm.on()) f.seti("long", 1);
   GenUri b = g_base(t, /*forceScheme=*/true, SEG_NOPCTDOT);
@@ -61,12 +68,15 @@ static std::string classify(const MUri &R) {
   return "";
 }
 
-template <class A> static Verdict check_type(const std::string &bt, const std::string &rt, const MUri &MR, bool *pathChanged, int owned, int fault, bool *swallowed) {
+// made: R as a library-made object (normalised in place as it stands) instead of the parse of rt
+template <class A> static Verdict check_type(const std::string &bt, const std::string &rt, const MUri &MR, bool *pathChanged, int owned, int fault, bool *swallowed, typename A::Uri *made = nullptr) {
   std::string klass = classify(MR);
   LedgerMM mm;  // declared before the URIs that release through it
-  auto fail = [&](const std::string &m) { return Verdict::fail(std::string(A::name()) + ": R='" + esc(rt) + "' B='" + esc(bt) + "': " + m, klass); };
-  Held<A> B, R1, R2;
-  if (B.parse(bt) != 0 || R1.parse(rt) != 0 || R2.parse(rt, fault > 0 ? &mm.mm : nullptr) != 0) return Verdict::discard();
+  auto fail = [&](const std::string &m) { return Verdict::fail(std::string(A::name()) + ": R='" + esc(rt) + "' B='" + esc(bt) + "': " + m + (made ? " {R is an object out of a history}" : ""), klass); };
+  Held<A> B, R1, R2h;
+  if (B.parse(bt) != 0 || R1.parse(rt) != 0) return Verdict::discard();
+  if (!made && R2h.parse(rt, fault > 0 ? &mm.mm : nullptr) != 0) return Verdict::discard();
+  struct { typename A::Uri &u; UriMemoryManager *mm; } R2{made ? *made : R2h.u, made ? nullptr : R2h.mm};
   // right-hand side: normalize(resolve(R, B))
   typename A::Uri rhs, lhs;
   int rc = A::AddBaseUri(&rhs, &R1.u, &B.u);
@@ -123,7 +133,38 @@ template <class A> static Verdict check_type(const std::string &bt, const std::s
   return Verdict::pass();
 }
 
+template <class A> static Verdict check_history(const Fields &f, std::string *desc) {
+  World<A> w;
+  for (auto &op : ops_from_fields(f)) w.exec(op);
+  std::vector<int> v = w.made_first(), rs;
+  for (int k : v) if (!w.borrowed_by_others(k)) rs.push_back(k);  // R is modified in place: nobody may borrow from it
+  if (rs.empty() || v.empty()) return Verdict::discard();
+  int i = rs[(size_t)f.geti("hi") % rs.size()], j = v[(size_t)f.geti("hj") % v.size()];
+  std::string rt, bt;
+  if (!w.faithful_text(i, &rt) || !w.faithful_text(j, &bt)) { stats().hit("history_operand_not_text_faithful"); return Verdict::pass(); }
+  MUri MR = m_split(rt), MB = m_split(bt);
+  if (!MB.hasScheme || has_pct_dot(MR.path)) { stats().hit("history_operands_outside_the_statement"); return Verdict::pass(); }
+  bool pc = false, sw = false;
+  *desc = "R(" + w.at(i).origin + ")=" + esc(rt) + " B(" + w.at(j).origin + ")=" + esc(bt);
+  std::string origin = w.at(i).origin;
+  Verdict r = check_type<A>(bt, rt, MR, &pc, (int)f.geti("owned"), 0, &sw, &w.at(i).uri);
+  w.at(i).borrows.clear();  // full normalisation made it owner (or it failed and is only released)
+  if (r.kind == Verdict::PASS) { stats().hit("history_R_origin=" + origin.substr(0, 1)); if (pc) stats().hit("history_R_path_changed"); }
+  return r;
+}
+
 static Verdict check(const Fields &f) {
+  if (f.has("n")) {
+    for (auto &op : ops_from_fields(f)) if (op.kind == 'P' && !uriref_matcher().matches(op.text)) return Verdict::discard();
+    std::string d, d2;
+    Verdict v = check_history<Api<char>>(f, &d);
+    if (v.kind != Verdict::PASS) return v;
+    v = check_history<Api<wchar_t>>(f, &d2);
+    if (v.kind != Verdict::PASS) return v;
+    stats().hit("arm=operands_from_history");
+    if (!d.empty()) stats().nontrivial(f.text(), d);
+    return Verdict::pass();
+  }
   std::string bt = f.get("base"), rt = f.get("ref");
   if (!uriref_matcher().matches(bt) || !uriref_matcher().matches(rt)) return Verdict::discard();
   MUri MR = m_split(rt), MB = m_split(bt);
